@@ -249,7 +249,7 @@ impl Property for C10 {
                                 match guard(std::panic::AssertUnwindSafe(|| gq.earcut_triangles())) {
                                     Ok(ts2) => {
                                         if let Some(rings2) = tri_rings("earcut[repeated-vertex]", &ts2, obs) {
-                                            let name = if p.holes.len() >= 2 { "earcut[repeated-vertex,holes>=2]" } else { "earcut[repeated-vertex]" };
+                                            let name = if p.holes.len() >= 3 { "earcut[holes>=3]" } else { "earcut[repeated-vertex]" };
                                             check_tiling(name, &c.g, &rings2, obs, &ctx);
                                         }
                                     }
